@@ -17,6 +17,10 @@ WORK = VERIF / ".work"
 EVID = VERIF / "evidence"
 REPLAYS = VERIF / "replays"
 REPO = os.environ.get("VERIF_REPO", "/repo")
+if os.path.realpath(REPO) != "/repo":
+    # a run against a scratch copy (seeded changes): its evidence and replays never replace those of /repo
+    EVID = WORK / "scratch-evidence"
+    REPLAYS = WORK / "scratch-replays"
 TLA_CP = "/opt/veriftools/tla/tla2tools.jar:/opt/veriftools/tla/CommunityModules-deps.jar"
 NCPU = os.cpu_count() or 4
 
@@ -280,7 +284,7 @@ def load_findings():
 # ---------------------------------------------------------------- evidence and result reporting
 
 def write_evidence(pid, tier, coverage, wall, violations, assumptions=()):
-    EVID.mkdir(exist_ok=True)
+    EVID.mkdir(parents=True, exist_ok=True)
     cov = dict(coverage)
     cov.setdefault("states", 1)
     cov.setdefault("transitions", 1)
@@ -293,7 +297,7 @@ def write_evidence(pid, tier, coverage, wall, violations, assumptions=()):
 
 
 def save_replay(pid, payload):
-    REPLAYS.mkdir(exist_ok=True)
+    REPLAYS.mkdir(parents=True, exist_ok=True)
     blob = json.dumps(payload, sort_keys=True)
     h = hashlib.sha1(blob.encode()).hexdigest()[:12]
     p = REPLAYS / f"{pid}-{h}.json"
